@@ -6,7 +6,7 @@ Tie: generated barrier programs run on the real library under the schedule contr
 (harness/lib_interp.c); every trace is (1) replayed through the extracted model (labels, hook values,
 barrier words incl. the sleep stack's links before every step) and (2) judged by an independent oracle of
 the property on the C/R lines of the trace (call/return order, return values, arrival counters)."""
-import os, re, json, shutil
+import os, re, json, shutil, time
 import vlib, trace
 
 VF = ["Barrier/BarrierModel.v"]
@@ -14,6 +14,17 @@ POINTS = ["barrier.read", "barrier.cas", "barrier.reset", "sstack.pop.read", "ss
           "sstack.push.read", "sstack.push.cas", "wakemanys.push"]
 # derived trace patterns that the quick tier must exercise as well
 PATTERNS = ["wakemanys.spin", "push.cas.failed", "barrier.cas.failed", "pop.cas.failed", "racer.ahead"]
+
+
+# participants with per-thread arrival counters (lib_interp has 128 objects: 2N+1 <= 128)
+N_SMALL = (1, 2, 3, 4, 5, 8, 16, 17)
+N_SMALL_WEIGHTED = [1, 2, 2, 3, 3, 3, 4, 4, 5, 5, 5, 8, 8, 16, 17]
+# participants of the plain programs (no counters, nothing between rounds) of the quick tier; the sizes a
+# maintainer would plausibly pick for a batch / an array / a queue (and one past them)
+N_PLAIN_QUICK = (64, 256, 257, 1025, 1026, 1100)
+# every N >= 3 of the quick tier must show the racer-ahead situation (with N <= 2 it cannot occur: the only
+# sleeper is pushed by the last step of the release)
+N_RACER_GATE = (3, 4, 5, 8, 16, 17) + N_PLAIN_QUICK
 
 
 def build(ctx):
@@ -55,7 +66,7 @@ def gen_program(rng, N, rounds, racer, filler):
     return objs, threads
 
 
-def gen_big_case(rng, N, rounds=2, workers=None, pswitch=85):
+def gen_big_case(rng, N, rounds=2, workers=None, pswitch=85, snapmax=6):
     """a barrier with more participants than any plausible internal batch size (a release loop that works in
     chunks, a fixed-size array of sleepers, ...).  No counters (lib_interp has 128 objects): the trace-order
     oracle is exact on its own.  Threads do nothing between rounds, so every woken thread is a racer; with
@@ -72,11 +83,11 @@ def gen_big_case(rng, N, rounds=2, workers=None, pswitch=85):
         kids = creators.get(p, [])
         threads[p] = ["create %d" % q for q in kids] + ["bwait b"] * rounds + ["join %d" % q for q in kids]
     return trace.case_text(workers, rng.rng(1, 1 << 30), ["b barrier %d" % N], threads, pswitch=pswitch,
-                           extra={"snapmax": 6}, maxsteps=20000000)
+                           extra=({"snapmax": snapmax} if snapmax else None), maxsteps=40000000)
 
 
 def gen_case(rng, N=None, rounds=None, workers=None, pswitch=None, racer="maybe"):
-    N = N or rng.choice([1, 2, 3, 5])
+    N = N or rng.choice(N_SMALL_WEIGHTED)
     rounds = rounds or rng.rng(1, 6)
     workers = workers or rng.rng(1, 4)
     pswitch = pswitch or rng.choice([20, 35, 60, 85])
@@ -104,6 +115,10 @@ def barriers_of(case):
 
 
 _STK = re.compile(r"stk=\[([^\]]*)\]")
+
+
+REPLAY_LIMIT_N = 3000        # above this N only a prefix of the trace is replayed through the model
+REPLAY_LIMIT_LINES = 40000   # (unary nats make a model step O(N)); the oracle always judges the whole trace
 
 
 def c06_block(name, N, parts, events):
@@ -146,6 +161,8 @@ def c06_block(name, N, parts, events):
             lines.append("tick %s %s %s %s %s %s %s %d %s" % (idx.get(e.actor, "?"), e.ctx, pid, v, kind, st, n,
                                                              len(stk), " ".join(stk)))
             src.append(e)
+    if N > REPLAY_LIMIT_N and len(lines) > REPLAY_LIMIT_LINES:
+        lines, src = lines[:REPLAY_LIMIT_LINES], src[:REPLAY_LIMIT_LINES]
     lines.append("end")
     src.append(None)
     return lines, src
@@ -253,6 +270,39 @@ def patterns(events):
     return h
 
 
+def resumed_elsewhere(events):
+    """(different, same): participants whose wait returned 0 on another worker than the one that executed their
+    successful arrival CAS (they blocked there) / on the same worker"""
+    blocked_on, diff, same = {}, 0, 0
+    for e in events:
+        if e.kind == "P" and e.words[0] == "barrier.cas" and e.ctx == "m":
+            blocked_on[e.actor] = e.w                  # the last CAS before the return is the successful one
+        elif e.kind == "R" and e.actor in blocked_on and e.words[0] == "ret":
+            w = blocked_on.pop(e.actor)
+            if e.words[1] == "0":
+                if e.w != w:
+                    diff += 1
+                else:
+                    same += 1
+    return diff, same
+
+
+def leader_changes(events):
+    """(changed, same): consecutive rounds whose last arriver (the thread executing barrier.reset) differs / is
+    the same thread"""
+    last, ch, sm = {}, 0, 0
+    for e in events:
+        if e.kind == "P" and e.words[0] == "barrier.reset":
+            b = e.words[1]
+            if b in last:
+                if last[b] != e.actor:
+                    ch += 1
+                else:
+                    sm += 1
+            last[b] = e.actor
+    return ch, sm
+
+
 def pop_failures(events):
     """number of failed pop CASes: pop.cas by t whose snapshot shows another top than its operand"""
     n = 0
@@ -284,7 +334,8 @@ def racer_ahead(events):
 
 def run_cases(ctx, exe, drv, cases, tag="c", timeout=60):
     out = []
-    wd = os.path.join(ctx.dir, "runs")
+    # one directory per process: two C06 checks may run at the same time (orchestrator + agent, two seeds)
+    wd = os.path.join(ctx.dir, "runs", "p%d" % os.getpid())
     blocks, owners = [], []
     for i, c in enumerate(cases):
         if not os.path.exists(exe):
@@ -311,6 +362,24 @@ def run_cases(ctx, exe, drv, cases, tag="c", timeout=60):
     return out
 
 
+def clean_runs(ctx, mine=False):
+    """remove this process's trace directory (mine) / directories of finished earlier runs (older than 2 h, or
+    whose process no longer exists)"""
+    base = os.path.join(ctx.dir, "runs")
+    if not os.path.isdir(base):
+        return
+    for d in os.listdir(base):
+        p = os.path.join(base, d)
+        dead = True
+        if d.startswith("p") and d[1:].isdigit():
+            dead = not os.path.exists("/proc/%s" % d[1:]) or (mine and int(d[1:]) == os.getpid())
+        try:
+            if dead or time.time() - os.path.getmtime(p) > 7200:
+                shutil.rmtree(p, ignore_errors=True) if os.path.isdir(p) else os.remove(p)
+        except OSError:
+            pass
+
+
 def load_corpus():
     d = os.path.join(vlib.VERIF, "corpus", "C06")
     res = []
@@ -325,28 +394,39 @@ def gen_cases(ctx, n_grid, n_racer):
     r = ctx.rng
     cases = []
     # every (N, rounds) combination at least once, with random workers / pswitch / racer
-    for N in (1, 2, 3, 5):
+    for N in N_SMALL:
         for rounds in range(1, 7):
             cases.append(gen_case(r, N=N, rounds=rounds))
     for _ in range(n_grid):
         cases.append(gen_case(r))
     # racer-heavy stratum: a participant with no work between rounds, many workers, frequent preemption
     for _ in range(n_racer):
-        N = r.choice([2, 3, 5, 5])
+        N = r.choice([2, 3, 4, 5, 5, 8])
         cases.append(gen_case(r, N=N, rounds=r.rng(2, 6), workers=r.rng(2, 4), pswitch=r.choice([60, 85, 85]),
                               racer=r.below(N)))
+    # plain programs for small N: every woken thread is a racer (the per-N racer gate needs them: with N = 3 only
+    # ~1 run in 4 shows a participant re-arriving while the other one is still on the private list)
+    mult = 1 if not ctx.thorough else 5
+    for N, k, ps in ((3, 40, 60), (4, 30, 85), (5, 30, 85), (8, 6, 85), (16, 6, 85), (17, 6, 85)):
+        for _ in range(k * mult):
+            cases.append(gen_big_case(r, N, rounds=6, workers=r.rng(3, 4), pswitch=ps, snapmax=None))
     return cases
 
 
 def gen_big_cases(ctx):
-    """N beyond 1024 (+1): 'N from 1 upward' needs at least one N past any internal batch size"""
+    """plain programs with many participants: 'N from 1 upward' needs N past any internal batch size, array
+    length or queue capacity a maintainer would plausibly pick"""
     r = ctx.rng
     if not ctx.thorough:
-        return [gen_big_case(r, N) for N in (1025, 1026, 1100)]
+        return [gen_big_case(r, 64), gen_big_case(r, 64, rounds=3)] + [gen_big_case(r, N) for N in N_PLAIN_QUICK[1:]]
     res = []
-    for N in (200, 513, 1025, 1026, 1027, 1100, 1500, 2049):
+    for N in (64, 200, 256, 257, 513, 1025, 1026, 1027, 1100, 1500, 2049):
         for _ in range(3):
             res.append(gen_big_case(r, N, rounds=r.rng(2, 3), pswitch=r.choice([60, 85, 85])))
+    # beyond the run-queue sizes: 4096 / 4097, 8193 (a release burst of 8192 pushes onto one worker's queue),
+    # and one worker only (nobody steals during the burst: the queue must hold all N-1 woken threads)
+    for N, w, ps in ((4096, 3, 85), (4097, 2, 85), (8193, 3, 60), (8193, 1, 20), (8200, 1, 20)):
+        res.append(gen_big_case(r, N, workers=w, pswitch=ps))
     return res
 
 
@@ -381,20 +461,38 @@ def replay_body(r, msg, model=None):
 def run(ctx):
     broken, log = ctx.prove("Properties_C06.v", "Properties_C06")
     exe, drv = build(ctx)
-    shutil.rmtree(os.path.join(ctx.dir, "runs"), ignore_errors=True)     # traces of earlier runs
+    clean_runs(ctx)
     corpus = load_corpus()
     n_grid, n_racer = (400, 200) if not ctx.thorough else (7000, 3000)
     cases = corpus + gen_big_cases(ctx) + gen_cases(ctx, n_grid, n_racer)
     results = []
-    CH = 400
-    for i in range(0, len(cases), CH):
-        results += run_cases(ctx, exe, drv, cases[i:i + CH], tag="b%02d_" % (i // CH), timeout=300)
+    CH = 200
     hist, dist, verdicts = {}, {}, {}
     oracle_fail, model_fail = [], []
     events_total = 0
-    for r in results:
-        for k, v in patterns(r["events"]).items():
+    racer_by_n, runs_by_n, capable_by_n = {}, {}, {}
+    resumed = [0, 0]           # returned 0 on another worker than the one it blocked on / on the same
+    leaders = [0, 0]           # consecutive rounds with a different / the same last arriver
+    for i in range(0, len(cases), CH):
+      chunk = run_cases(ctx, exe, drv, cases[i:i + CH], tag="b%02d_" % (i // CH), timeout=600)
+      results += chunk
+      for r in chunk:
+        h1 = patterns(r["events"])
+        for k, v in h1.items():
             hist[k] = hist.get(k, 0) + v
+        _, thr_, _, par_ = trace.parse_case(r["case"])
+        for (bname, bN, bparts) in barriers_of(r["case"])[:1]:
+            racer_by_n[bN] = racer_by_n.get(bN, 0) + h1.get("racer.ahead", 0)
+            runs_by_n[bN] = runs_by_n.get(bN, 0) + 1
+            rounds_ = min([sum(1 for o in thr_[p] if o[0] == "bwait") for p in bparts] or [0])
+            if int(par_.get("workers", "1")) >= 2 and rounds_ >= 2:      # a racer needs a thief and a next round
+                capable_by_n[bN] = capable_by_n.get(bN, 0) + 1
+        d, sm = resumed_elsewhere(r["events"])
+        resumed[0] += d
+        resumed[1] += sm
+        d, sm = leader_changes(r["events"])
+        leaders[0] += d
+        leaders[1] += sm
         events_total += sum(int(m.split()[1]) for m in r["model"] if m.startswith("ok"))
         bs = barriers_of(r["case"])
         _, _, _, params = trace.parse_case(r["case"])
@@ -407,6 +505,8 @@ def run(ctx):
             oracle_fail.append((r, msg))
         if any(not m.startswith("ok") for m in r["model"]) or not r["model"]:
             model_fail.append(r)
+        if not msg and r not in model_fail and len(results) > 3:
+            r["events"], r["blocks"], r["trace_text"] = [], [], ""      # keep memory flat in the thorough tier
     searched = 0
     if not oracle_fail and (model_fail or broken):
         # correspondence (or a proof) broke without a failing input so far: search the neighbourhood of the
@@ -424,11 +524,27 @@ def run(ctx):
                 oracle_fail.append((r, msg))
                 break
     missing = [p for p in POINTS + PATTERNS if hist.get(p, 0) == 0]
+    # situations the property text names: resumed on another worker, a different last arriver than in the round
+    # before, a racer ahead for every N >= 3 that was run (quick: N_RACER_GATE; thorough: every N >= 3 run)
+    gate_ns = [n for n in sorted(set(N_RACER_GATE) | set(runs_by_n))
+               if n >= 3 and (n in N_RACER_GATE or capable_by_n.get(n, 0) >= (20 if n < 8 else 1))]
+    missing += ["racer.ahead[N=%d]" % n for n in gate_ns if racer_by_n.get(n, 0) == 0]
+    if resumed[0] == 0:
+        missing.append("resumed.on.other.worker")
+    if leaders[0] == 0:
+        missing.append("last.arriver.changed")
     ctx.cov["correspondence"] = {
         "cases": len(results), "corpus_cases": len(corpus), "model_steps_replayed": events_total,
         "disagreements": len(model_fail), "oracle_failures": len(oracle_fail), "search_runs": searched,
         "input_distribution": dist, "verdicts": verdicts, "point_histogram": hist,
-        "points_required": POINTS + PATTERNS, "points_missing": missing}
+        "points_required": POINTS + PATTERNS + ["racer.ahead[N] for N in %s" % (gate_ns,), "resumed.on.other.worker",
+                                                "last.arriver.changed"],
+        "points_missing": missing,
+        "runs_by_N": {str(k): runs_by_n[k] for k in sorted(runs_by_n)},
+        "racer_capable_runs_by_N": {str(k): capable_by_n[k] for k in sorted(capable_by_n)},
+        "racer_ahead_by_N": {str(k): racer_by_n[k] for k in sorted(racer_by_n)},
+        "returns_of_0_resumed_on_other_worker": resumed[0], "returns_of_0_resumed_on_same_worker": resumed[1],
+        "rounds_last_arriver_differs_from_previous_round": leaders[0], "rounds_last_arriver_same_as_previous": leaders[1]}
     ctx.cov["evaluations"] = events_total
     ctx.cov["samples"] += [{"case": results[i]["case"], "verdict": results[i]["verdict"], "model": results[i]["model"]}
                            for i in (0, len(results) // 2, len(results) - 1) if results]
@@ -456,9 +572,11 @@ def run(ctx):
                       {"theorem_or_correspondence": ", ".join(broken), "log": getattr(ctx, "proof_log", log[-3000:])},
                       found=False)
     if missing and not oracle_fail and not model_fail:
-        ctx.violation("coverage", "POINT ids / patterns never exercised in this run: " + ", ".join(missing),
+        ctx.violation("coverage", "POINT ids / patterns / situations never exercised in this run: " + ", ".join(missing),
                       {"theorem_or_correspondence": "coverage of the barrier / sleep-stack points", "histogram": hist},
                       found=False)
+    if not ctx.violations:
+        clean_runs(ctx, mine=True)
     return ctx.finish(assumptions=[
         "program class: exactly N participants, each calling wait repeatedly on a barrier initialised for N (N >= 1)",
         "sequential consistency at the granularity of MYTH_VERIF_POINTs (one step = one shared access)",
